@@ -26,18 +26,27 @@ C_REAL = 1 << 14   # |imag phi| / (eps * gain * max|rho|)
 C_ZEROEQ = 1 << 14
 
 
-def qn_functions(consts, adiabatic, Bf):
-    """the coefficient functions the property states for the quasi-neutrality equation (profiles = inputs)"""
+def profile_functions(consts, custom):
+    """(n0, Te, n0'/n0): the library's profiles, or (custom) other profile functions handed to the solver through its optional
+    arguments `n0`, `Te`, `n0derivNormalised`"""
     from pygyro.initialisation import initialiser_funcs as init
 
-    def n0(r):
+    def n0d(r):
         return init.n0(r, consts.CN0, consts.kN0, consts.deltaRN0, consts.rp)
 
-    def Te(r):
+    def Ted(r):
         return init.Te(r, consts.CTe, consts.kTe, consts.deltaRTe, consts.rp)
 
-    def dn(r):
+    def dnd(r):
         return init.n0deriv_normalised(r, consts.kN0, consts.rp, consts.deltaRN0)
+    if not custom:
+        return n0d, Ted, dnd
+    return (lambda r: 2.0 * n0d(r) + 0.1), (lambda r: 0.5 * Ted(r) + 0.2), (lambda r: 2.0 * dnd(r) * n0d(r) / (2.0 * n0d(r) + 0.1))
+
+
+def qn_functions(consts, adiabatic, Bf, custom=False):
+    """the coefficient functions the property states for the quasi-neutrality equation (profiles = inputs)"""
+    n0, Te, dn = profile_functions(consts, custom)
     fA = lambda r: -1.0  # noqa: E731
     fB = lambda r: -(1 / r + dn(r))  # noqa: E731
     fC = (lambda r: Bf * Bf / Te(r)) if adiabatic else (lambda r: 0.0)
@@ -76,6 +85,8 @@ def run_pipeline(S, cfg, nprocs, F=None, rho0=None, seed=0):
             kw['adiabaticElectrons'] = False
         if cfg['B'] != 1.0:
             kw['B'] = cfg['B']
+        if cfg.get('custom_profiles'):
+            kw['n0'], kw['Te'], kw['n0derivNormalised'] = profile_functions(consts, True)
         try:
             qn = QuasiNeutralitySolver(eta[:3], cfg['qdeg'], bs[0], consts, **kw)
         except ValueError as e:
@@ -145,7 +156,7 @@ def one_setup(chk, drv, it, stats):
     adiabatic = rng.random() < 0.7
     chi = rng.choice([0, 1]) if adiabatic else None
     cfg = {'qdeg': rng.choice([2 * d, 2 * d + 1, 7, 6, 3]), 'adiabatic': adiabatic, 'chi': chi,
-           'B': rng.choice([1.0, 1.0, 2.0]), 'dens_degree': rng.choice([3, 6])}
+           'B': rng.choice([1.0, 1.0, 2.0]), 'dens_degree': rng.choice([3, 6]), 'custom_profiles': rng.random() < 0.3}
     rrange = rng.choice([(0.1, 14.5), (1.0, 3.0), (2.0, 9.0)])
     # theta, z splines are irrelevant for the pipeline (only their grids are used); keep them valid
     # profile constants as a parameter file may give them: the electron temperature profile need not share the ion width / gradient
@@ -196,7 +207,7 @@ def one_setup(chk, drv, it, stats):
             chk.diff('chi refusal', dict(desc0, chi=bad), mo.get('chi_refused'), refused)
         chk.count('chi refusal cases')
 
-    fns = qn_functions(consts, adiabatic, cfg['B'])
+    fns = qn_functions(consts, adiabatic, cfg['B'], cfg.get('custom_profiles', False))
     from pygyro.splines.splines import BSplines, make_knots
     rs0 = S['bsplines'][0]
     rs = BSplines(make_knots(rs0.breaks, 3, False), 3, False, False) if rs0.cubic_uniform else rs0
@@ -357,7 +368,7 @@ def qn_request(S, cfg, d, nth, electrons, chi, queries, rs):
     rs0 = S['bsplines'][0]
     if rs is None:
         rs = BSplines(make_knots(rs0.breaks, 3, False), 3, False, False) if rs0.cubic_uniform else rs0
-    fns = qn_functions(S['constants'], electrons == 'adiabatic', cfg['B'])
+    fns = qn_functions(S['constants'], electrons == 'adiabatic', cfg['B'], cfg.get('custom_profiles', False))
     extra = {'N': nth, 'electrons': electrons, 'nodes': common.rats(S['eta'][0]), 'queries': queries}
     if electrons == 'adiabatic':
         extra['chi'] = int(chi)
